@@ -317,6 +317,7 @@ pub struct MonState {
     pub calls: u64,
     pub prev_addr: Option<usize>,
     pub handler_entries: u64,
+    pub ended_at_final_halt: bool,
     // C06
     pub c06: Vec<String>,
     pub c06_slots_checked: u64,
@@ -360,6 +361,14 @@ const V6_NAMES: [&str; 6] = [
 
 pub struct Mon(pub Rc<RefCell<MonState>>);
 
+impl Mon {
+    fn push_c15(m: &mut MonState, s: String) {
+        if m.c15.len() < 12 && !m.c15.contains(&s) {
+            m.c15.push(s);
+        }
+    }
+}
+
 impl MonState {
     fn push_v(list: &mut Vec<String>, s: String) {
         if list.len() < 12 && !list.contains(&s) {
@@ -375,6 +384,9 @@ impl MonState {
     }
 
     fn c15_step(&mut self, address: usize, ins: &Instruction, d: &Depths, es: &ErrorState) {
+        self.ended_at_final_halt = matches!(ins, Instruction::Halt)
+            && self.positions.get(address).map(|p| p.0 == u32::MAX).unwrap_or(false)
+            && es.last_error_address.is_none();
         // branch outcome bookkeeping
         if let Some((jaddr, target)) = self.prev_jif.take() {
             let e = self.jif_taken.entry(jaddr).or_insert(0);
@@ -744,6 +756,24 @@ impl Monitor for Mon {
     fn on_end(&mut self, depths: &Depths, _a: &Variant, context: &Context) {
         let mut m = self.0.borrow_mut();
         let last = m.prev_addr.unwrap_or(0);
+        // a program that runs off the end of its main module (the final Halt, emitted at position
+        // u32::MAX) must leave every stack as it found it
+        if m.want_c15 && m.ended_at_final_halt {
+            let v = vec6(depths);
+            let base = [0usize, 1, 0, 0, 1, 0];
+            if v != base || depths.return_address_stack != 0 {
+                let which: Vec<String> = (0..6)
+                    .filter(|k| v[*k] != base[*k])
+                    .map(|k| format!("{} {}", V6_NAMES[k], v[k]))
+                    .collect();
+                let s = format!(
+                    "stacks are not back at their base when the main module ends: {} return_address_stack {}",
+                    which.join(", "),
+                    depths.return_address_stack
+                );
+                Self::push_c15(&mut m, s);
+            }
+        }
         if m.want_c06 {
             m.c06_walk(context, last);
         }
